@@ -248,7 +248,7 @@ Section MV.
   Fixpoint last_ok (fs : list form) : bool :=
     match fs with [] => true | [f] => mv f | _ :: r => last_ok r end.
   Fixpoint clauses_ok (cs : list (form * list form)) : bool :=
-    match cs with [] => true | (_, b) :: r => last_ok b && clauses_ok r end.
+    match cs with [] => true | (c, b) :: r => last_ok b && (match b with [] => mv c | _ => true end) && clauses_ok r end.   (* a clause without forms returns its test value *)
 End MV.
 Fixpoint mvfree (f : form) {struct f} : bool :=
   match f with
